@@ -128,11 +128,13 @@ Theorem C12_tables_agree :
   /\ forallb top_row_ok x_top = true
   (* other builder calls keep the slots (the model's COther); operands' own pagination does not reach the set operation's tail *)
   /\ forallb (fun r : cls * kind * string * bool => snd r) x_keep = true
-  /\ forallb setop_operand_row_ok x_setop_operands = true.
+  /\ forallb setop_operand_row_ok x_setop_operands = true
+  (* every statement-starting class-method factory of every class builds the class's own builder and pagination *)
+  /\ forallb route_row_ok x_routes = true.
 Proof.
   pose proof templates_agree as (a & _ & b & _).
   repeat split; auto; first [apply grid_agrees | apply effects_agree | apply positions_agree | apply limit_by_agrees
-                            | apply top_agrees | apply other_calls_keep | apply setop_operands_agree].
+                            | apply top_agrees | apply other_calls_keep | apply setop_operands_agree | apply routes_agree].
 Qed.
 Print Assumptions C12_tables_agree.
 
